@@ -63,6 +63,7 @@ class SymPattern:
         self._tree = sre_parse.parse(pattern, flags)
         self._ascii = bool(flags & _re.ASCII)
         self.groups = self._real.groups
+        self._sets = {}
         if flags & (_re.IGNORECASE | _re.VERBOSE):
             self._unsupported = "IGNORECASE/VERBOSE"
         else:
@@ -136,23 +137,50 @@ class SymPattern:
         return (not t) if neg else t
 
     def _charset(self, items, c):
-        neg, res = False, False
-        for op, av in items:
-            if op is C.NEGATE:
-                neg = True
-                continue
-            if op is C.LITERAL:
-                t = bool(cp_eq(c, av))
-            elif op is C.RANGE:
-                t = bool(in_ranges(c, [av]))
-            elif op is C.CATEGORY:
-                t = self._category(av, c)
-            else:
-                raise Unsupported(f"charset op {op}")
-            if t:
-                res = True
-                break
-        return res != neg
+        """one membership test (a single fork) over the union of the set's items"""
+        key = id(items)
+        cached = self._sets.get(key)
+        if cached is None:
+            neg, ranges = False, []
+            for op, av in items:
+                if op is C.NEGATE:
+                    neg = True
+                elif op is C.LITERAL:
+                    ranges.append((av, av))
+                elif op is C.RANGE:
+                    ranges.append(tuple(av))
+                elif op is C.CATEGORY:
+                    ranges += self._category_ranges(av)
+                else:
+                    raise Unsupported(f"charset op {op}")
+            ranges.sort()
+            merged = []
+            for a, b in ranges:
+                if merged and a <= merged[-1][1] + 1:
+                    merged[-1] = (merged[-1][0], max(merged[-1][1], b))
+                else:
+                    merged.append((a, b))
+            cached = self._sets[key] = (neg, merged, items)
+        neg, merged, _ = cached
+        return bool(in_ranges(c, merged)) != neg
+
+    def _category_ranges(self, cat):
+        a = self._ascii
+        m = {C.CATEGORY_DIGIT: ("digit_a" if a else "decimal", False), C.CATEGORY_NOT_DIGIT: ("digit_a" if a else "decimal", True),
+             C.CATEGORY_SPACE: ("space_a" if a else "space", False), C.CATEGORY_NOT_SPACE: ("space_a" if a else "space", True),
+             C.CATEGORY_WORD: ("word_a" if a else "word_u", False), C.CATEGORY_NOT_WORD: ("word_a" if a else "word_u", True)}
+        name, neg = m[cat]
+        rs = table(name)
+        if not neg:
+            return list(rs)
+        out, prev = [], 0
+        for x, y in rs:
+            if x > prev:
+                out.append((prev, x - 1))
+            prev = y + 1
+        if prev <= 0x10FFFF:
+            out.append((prev, 0x10FFFF))
+        return out
 
     # ---- backtracking matcher: generator of end positions in sre priority order ----
     def _m(self, seq, i, s, pos, n, groups):
